@@ -28,7 +28,7 @@ import (
 )
 
 var (
-	c11StageKinds = []string{"read", "write", "login", "kvwrite", "tokencreate", "wrap"}
+	c11StageKinds = []string{"read", "write", "login", "kvwrite", "tokencreate", "wrap", "lklogin", "lkloginfail", "lklocked"}
 	c11StageHdrs  = []string{"hmac-header", "hmac-header", "plain-header", "no-header"}
 )
 
@@ -139,6 +139,24 @@ func (w *c11World) runStageCase(seed int64, sc *c11StageCase) {
 		req = &logical.Request{Operation: logical.UpdateOperation, Path: "vrec/data/" + name, ClientToken: w.root, Data: reqData}
 	case "login":
 		req = &logical.Request{Operation: logical.UpdateOperation, Path: "auth/vcred/login", Data: reqData}
+	case "lklogin", "lkloginfail", "lklocked": // auth mount of a type name with user lockout: the core calls the backend for the alias name first
+		path := "auth/v" + c11LockType(cs) + "/login"
+		user := "u" + rng.Canary()
+		reqData["username"], reqData["password"] = user, "good"+rng.Canary()
+		if cs.Kind == "lkloginfail" {
+			reqData["password"] = "bad" + rng.Canary()
+		}
+		if cs.Kind == "lklocked" {
+			for i := 0; i < c11LockoutThreshold; i++ {
+				fres := w.do(&logical.Request{Operation: logical.UpdateOperation, Path: path, Data: map[string]any{"username": user, "password": "bad" + rng.Canary()}}, "")
+				if ra, rp := j.order(fres, fmt.Sprintf("setup: failing login %d", i+1)); !fres.isErr() || !ra || !rp {
+					r.Inconc("case %s: failing login %d with all devices healthy: error=%v accepted=%v/%v", cs.ID, i+1, fres.isErr(), ra, rp)
+					return
+				}
+			}
+			w.dropEvents()
+		}
+		req = &logical.Request{Operation: logical.UpdateOperation, Path: path, Data: reqData}
 	case "kvwrite":
 		req = &logical.Request{Operation: logical.UpdateOperation, Path: "secret/c11s-" + name, ClientToken: w.root, Data: map[string]any{"value": reqSecs[0].Value}}
 	case "tokencreate":
@@ -215,7 +233,14 @@ func (w *c11World) runStageCase(seed int64, sc *c11StageCase) {
 	for _, o := range cs.Pattern {
 		allOK = allOK && o == c11OK
 	}
-	if allOK && res.isErr() {
+	if strings.HasPrefix(cs.Kind, "lk") {
+		for _, e := range w.eventsFor(res.ID) {
+			if e.Kind == "backend" && strings.HasPrefix(e.Op, "internal:") {
+				r.Count("lockout_alias_lookahead_calls_observed", 1)
+			}
+		}
+	}
+	if allOK && res.isErr() && cs.Kind != "lkloginfail" && cs.Kind != "lklocked" {
 		r.Inconc("case %s: with every stage healthy the request failed: %s", cs.ID, res.Rendered)
 	}
 }
@@ -280,4 +305,5 @@ func TestVerif_C11_BrokerStages(t *testing.T) {
 	r.Require("delivered_after_both_accepted", 100)
 	r.Require("kv_write_blocked_not_stored", 50)
 	r.Require("kv_write_audited_and_stored", 10)
+	r.Require("lockout_alias_lookahead_calls_observed", 100)
 }
